@@ -269,6 +269,12 @@ def unary_shard(spec, R, rng, G):
                 tg = rng.sample(tr, rng.randint(1, 3)) + [rng.choice(inv[lang]) for _ in range(rng.randint(1, 2))]
                 rng.shuffle(tg)
                 table[k1] = tg
+            if lang == 'en' and rng.random() < 0.3:
+                # any key (functors too) may have a target of the type-raised shape T/(T\\X) or T\\(T/X)
+                k2, T = rng.choice(ks), rng.choice(inv[lang])
+                arg = k2 if rng.random() < 0.7 else rng.choice(inv[lang])
+                tgt = ('F', T, '/', ('F', T, '\\', arg)) if rng.random() < 0.5 else ('F', T, '\\', ('F', T, '/', arg))
+                table[k2].insert(rng.randrange(len(table[k2]) + 1), tgt)
             if rng.random() < 0.3:
                 k0 = rng.choice(ks)                            # a category may be listed among its own targets
                 table[k0].insert(rng.randrange(len(table[k0]) + 1), k0)
